@@ -10,4 +10,16 @@ PROPS = {
         "modelled": COMMON_MODELLED + ["Clock.c, Time.c, ClockCommands.c, counter part of TPM2_Startup/Shutdown, VolatileState v4 clock tail: modelled by hand in Model/Clock.lean; constants generated"],
         "assumptions": ["host CLOCK_MONOTONIC does not go backwards within one run (arbitrary across suspend/resume)", "virtual clock via -Dclock_gettime redirect on Clock.c"],
     },
+    "C18": {
+        "shards": {"quick": 4, "thorough": 16},
+        "timeout": {"quick": 600, "thorough": 3000},
+        "leaks": True,
+        "rule": "evaluation = one TPMLIB_Process call on the real TPM 1.2 (request bytes, response bytes, negotiated buffer size) judged by Model.Tpm12.Frame.wellFormed and compared with Model.Tpm12.Frame.process; distinct_nontrivial = distinct (ordinal, response-code class, request-tag class) triples reaching an ordinal body + distinct pre-body paths (rejected header / ordinal not in table, per tag class)",
+        "partial": ["memory safety, undefined behaviour, leaks, hangs of the ordinal bodies: exploration only (every command of the campaign runs under ASan+UBSan+LSan with an exact-size heap copy of the request; a report ends the run as a violation), not a theorem",
+                    "the ordinal bodies are abstract in the model (any return code, any output parameters); the theorems hold for every body, the per-body tag checks are checked by correspondence only",
+                    "no_shutdown_from_input is about the framing layer; that no body returns TPM_FAIL for any input is exploration (any TPM_FAIL / TPM_FAILEDSELFTEST answer in the campaign is reported as a violation)",
+                    "transport-wrapped commands (TPM_ExecuteTransport inner framing), DAA and key-loading prefixes are only reached with random/mutated bodies (no owner is installed: TakeOwnership needs RSA key generation)"],
+        "modelled": COMMON_MODELLED + ["tpm12/tpm_process.c TPM_Process, TPM_Process_GetCommandParams, TPM_Process_Unused, TPM_Process_Init's missing StoreFinalResponse; tpm12/tpm_store.c StoreInitialResponse/StoreFinalResponse/AdjustParamSize/AdjustReturnCode; tpm12/tpm_sizedbuffer.c TPM_SizedBuffer_Load: modelled by hand in Model/Tpm12Frame.lean; ordinal table, tags, error codes, buffer limits generated (Gen/Tpm12.lean)"],
+        "assumptions": ["TPM_Process_Preprocess returns 0 (self test passes, saved-state deletion and locality callback succeed) in the campaign", "localities 0..4 only"],
+    },
 }
